@@ -24,7 +24,7 @@ def requests():
         Request(UNIT, fn=[CLS + "::.*"], rec=[CLS]),
         Request("src/recon_buildblock/PoissonLogLikelihoodWithLinearModelForMean.cxx", fn=["stir::PoissonLogLikelihoodWithLinearModelForMean::.*"]),
         Request("src/recon_buildblock/GeneralisedObjectiveFunction.cxx", fn=["stir::GeneralisedObjectiveFunction::.*"]),
-        Request("src/recon_buildblock/distributable.cxx", fn=["stir::get_viewgrams", "stir::zero_end_sinograms"]),
+        Request("src/recon_buildblock/distributable.cxx", fn=["stir::get_viewgrams", "stir::zero_end_sinograms", "stir::distributable_computation"]),
     ]
 
 
@@ -200,6 +200,114 @@ def rule_c_end_planes(ctx, fn):
         )
 
 
+def rule_d_accumulators_start_from_zero(ctx, fns):
+    """add_subset_sensitivity(target, k) ACCUMULATES into its target.  At every call site the target - the slot
+    subsensitivity_sptrs[k] - must, on every path, have been zero-filled, replaced by a fresh empty copy, or (only when subset
+    sensitivities are NOT used) made an alias of slot 0, into which the total is deliberately accumulated.  Otherwise what a previous
+    set_up() left in the slot is added to the new sensitivity (the quantity would depend on the object's history)."""
+    n = 0
+    getter = [f for f in fns if f.short == "get_subset_sensitivity_sptr" and f.body is not None]
+    slot_of_getter = None
+    for g in getter:
+        rets = [r for r in g.walk() if r.k == "ReturnStmt" and r.c]
+        if len(rets) == 1 and g.params:
+            e = rets[0].c[0].strip()
+            while e.k in ("CXXConstructExpr", "CXXTemporaryObjectExpr") and len(e.c) == 1:
+                e = e.c[0].strip()  # the shared_ptr is returned by value: a copy of the slot's pointer
+            k = key(e)
+            if k.endswith("[v%d]" % g.params[0]["d"]):
+                slot_of_getter = k[: -len("[v%d]" % g.params[0]["d"])]
+    for f in fns:
+        if f.body is None or not f.cfg_raw:
+            continue
+        calls = [c for c in f.calls() if (c.callee or "").endswith("::add_subset_sensitivity")]
+        if not calls:
+            continue
+        cfg = CFG(f)
+        for ci, c in enumerate(calls):
+            tgt = c.call_args()[0].strip()
+            while tgt.k in ("UnaryOperator", "CXXOperatorCallExpr") and tgt.op == "*" and len(tgt.c) == 1:
+                tgt = tgt.c[0].strip()
+            slot = None
+            if tgt.k == "CXXMemberCallExpr" and (tgt.callee or "").endswith("::get_subset_sensitivity_sptr") and slot_of_getter:
+                slot = "%s[%s]" % (slot_of_getter, key(tgt.call_args()[0].strip()))
+            elif tgt.k == "CXXOperatorCallExpr" and tgt.op == "[]":
+                slot = key(tgt)
+            if slot is None:
+                ctx.unrec(f.qn, "target of add_subset_sensitivity at line %d is not a subset-sensitivity slot" % c.line)
+                continue
+            base = slot[: slot.rindex("[")]
+            idx = key(c.call_args()[1].strip())
+            if not slot.endswith("[%s]" % idx):
+                ctx.ob("C05.d-accumulators-start-from-zero", f.qn, "target-matches-subset@%d" % ci, False, c.where(), "add_subset_sensitivity accumulates subset %s into the slot %s" % (idx, slot))
+                n += 1
+                continue
+
+            def initialises(m):
+                # std::fill(slot->begin_all(), slot->end_all(), 0)
+                if m.is_call() and m.callee == "std::fill" and len(m.call_args()) == 3:
+                    a = [key(x.strip()) for x in m.call_args()]
+                    return a[0] == "*%s.begin_all()" % slot and a[1] == "*%s.end_all()" % slot and a[2] in ("0", "0.0")
+                # slot->fill(0)
+                if m.k == "CXXMemberCallExpr" and (m.callee or "").split("::")[-1] == "fill" and m.c and key(m.c[0].strip()) == "*" + slot and key(m.call_args()[0].strip()) in ("0", "0.0"):
+                    return True
+                # slot.reset(X->get_empty_copy())
+                if m.k == "CXXMemberCallExpr" and (m.callee or "").split("::")[-1] == "reset" and m.c and key(m.c[0].strip()) == slot and m.call_args() and any(x.is_call() and (x.callee or "").split("::")[-1] == "get_empty_copy" for x in m.call_args()[0].walk()):
+                    return True
+                # slot = slots[0]  when subset sensitivities are not used: the total is accumulated in slot 0 (itself initialised)
+                if m.k in ("BinaryOperator", "CXXOperatorCallExpr") and m.op == "=" and len(m.c) == 2 and key(m.c[0].strip()) == slot and key(m.c[1].strip()) == base + "[0]":
+                    facts = cfg.facts_at(m)
+                    return any(tv is False and k_ in ("this.get_use_subset_sensitivities()", "this.use_subset_sensitivities") for k_, tv, _r in facts)
+                return False
+
+            w = cfg.must_pass_from_entry([c], initialises)
+            ctx.ob("C05.d-accumulators-start-from-zero", f.qn, "slot-initialised@%d" % ci, w is None, c.where(), "every path to add_subset_sensitivity(slot[k], k) zero-fills the slot, replaces it by a fresh empty copy, or (subset sensitivities off) aliases it to slot 0" if w is None else "a path reaches add_subset_sensitivity with whatever an earlier set_up() left in %s: blocks %s" % (slot.replace("this.", ""), w))
+            n += 1
+    return n
+
+
+def rule_d_outputs_zeroed(ctx, f):
+    """distributable_computation accumulates into its optional outputs (image, log-likelihood): each non-const pointer output is
+    set to zero before anything else is done with it, on every path"""
+    cfg = CFG(f)
+    n = 0
+    for pi, p in enumerate(f.params):
+        t = p["t"].strip()
+        if not t.endswith("*") or t.startswith("const ") or not ("DiscretisedDensity" in t or t.replace(" ", "") in ("double*", "float*")):
+            continue
+        pk = "v%d" % p["d"]
+
+        def zeroes(m):
+            if m.k in ("BinaryOperator", "CXXOperatorCallExpr") and m.op == "=" and len(m.c) == 2 and key(m.c[0].strip()) in ("*" + pk, "(* %s)" % pk) and key(m.c[1].strip()) in ("0", "0.0"):
+                return True
+            return m.k == "CXXMemberCallExpr" and (m.callee or "").split("::")[-1] == "fill" and m.c and key(m.c[0].strip()) in ("*" + pk, pk) and key(m.call_args()[0].strip()) in ("0", "0.0")
+
+        uses = []
+        for m in f.walk():
+            if m.k == "DeclRefExpr" and m.get("d") == p["d"] and m.i in cfg.pos:
+                par = m.parent
+                while par is not None and par.k == "Cast":
+                    par = par.parent
+                if par is not None and par.k in ("BinaryOperator", "CXXOperatorCallExpr") and par.op in ("!=", "==", "&&", "||"):
+                    continue  # null test
+                if par is not None and par.k in ("IfStmt", "UnaryOperator") and (par.k == "IfStmt" or par.op == "!"):
+                    continue
+                if any(zeroes(a) for a in m.ancestors()):
+                    continue
+                uses.append(m)
+        if not uses:
+            continue
+        w = cfg.must_pass_from_entry(uses, zeroes)
+        if w is not None:
+            # `if (P != NULL) *P = 0;` before every use: the path around the test has P == NULL, where there is nothing to zero
+            guards = [g for g in f.walk() if g.k == "IfStmt" and len(g.c) == 2 and any(zeroes(x) for x in g.c[1].walk()) and [m.get("d") for m in g.c[0].walk() if m.k == "DeclRefExpr"] == [p["d"]] and not any(x.k in ("ReturnStmt", "BreakStmt", "ContinueStmt", "GotoStmt") for x in g.c[1].walk())]
+            if guards and all(cfg.dominates(guards[0].c[0].strip(), u) for u in uses if not any(a is guards[0] for a in u.ancestors())):
+                w = None
+        ctx.ob("C05.d-accumulators-start-from-zero", f.qn, "output#%d-zeroed-first" % pi, w is None, f.where(), "the optional output (%s) is set to zero before it is accumulated into, on every path (%d uses)" % (t, len(uses)) if w is None else "output parameter %d (%s) is used before it was zeroed: blocks %s" % (pi, t, w))
+        n += 1
+    return n
+
+
 def run(ctx):
     ctx.explanation = (
         "Decides (a) by finite-domain abstract interpretation of every request function of "
@@ -230,6 +338,13 @@ def run(ctx):
             "stir::GeneralisedObjectiveFunction::set_prior_sptr": "the prior carries its own _already_set_up flag: every prior computation starts with check(), which calls error() when the new prior was not set up (GeneralisedPrior::check)",
         },
     )
+    nd = rule_d_accumulators_start_from_zero(ctx, allf)
+    dc = [f for f in units[3].functions if f.qn == "stir::distributable_computation" and f.body is not None and f.cfg_raw]
+    if not dc:
+        ctx.fail_broken("anchor stir::distributable_computation not found")
+    else:
+        rule_d_outputs_zeroed(ctx, dc[0])
+    ctx.require_count("C05.d-accumulators-start-from-zero", 3)
     gv = [f for f in units[3].functions if f.qn == "stir::get_viewgrams" and f.body is not None]
     if not gv:
         ctx.fail_broken("anchor stir::get_viewgrams (distributable.cxx) not found")
